@@ -48,6 +48,7 @@ class Job:
     flags: list = field(default_factory=list)     # extra cbmc flags
     overflow: bool = True          # signed-overflow check (off for language int arithmetic)
     remove_bodies: list = field(default_factory=list)
+    src_flags: dict = field(default_factory=dict)     # {repo-relative source: [extra goto-cc flags]} (e.g. -include a modelling header)
     src_remove_bodies: list = field(default_factory=list)  # removed from the real TUs before linking (harness supplies the body)
     timeout: int = 120
     mem_gb: int = 10
@@ -106,7 +107,10 @@ def dflags(d):
 
 def compile_source_gb(src_abs, job):
     """goto-cc -c one real TU, cached per (file, defines)."""
-    key = (src_abs, tuple(sorted(job.src_defines.items())), tuple(job.includes), tuple(job.src_remove_bodies))
+    extra_fl = []
+    for rel, fl in job.src_flags.items():
+        if src_abs.endswith(rel): extra_fl = list(fl)
+    key = (src_abs, tuple(sorted(job.src_defines.items())), tuple(job.includes), tuple(job.src_remove_bodies), tuple(extra_fl))
     with _cc_lock:
         ent = _cc_cache.get(key)
         if ent is None:
@@ -117,7 +121,7 @@ def compile_source_gb(src_abs, job):
             return ent['out'], ent['err']
         h = hashlib.sha1(repr(key).encode()).hexdigest()[:12]
         out = os.path.join(scratch(), 'obj_%s_%s.gb' % (os.path.basename(src_abs).replace('.', '_'), h))
-        cmd = ['goto-cc', '-c'] + BASE_CFLAGS + dflags(job.src_defines) + incflags(job) + [src_abs, '-o', out]
+        cmd = ['goto-cc', '-c'] + BASE_CFLAGS + dflags(job.src_defines) + incflags(job) + extra_fl + [src_abs, '-o', out]
         rc, so, se = sh(cmd, timeout=300)
         if rc != 0:
             ent['err'] = 'goto-cc failed for %s:\n%s' % (src_abs, se[-3000:])
@@ -318,7 +322,10 @@ def run_one(job):
             vac.append({'description': 'required witness not reachable: ' + mw})
     if job.expect_witness and not reached:
         vac.append({'description': 'no witness reachable at all (of %d)' % len(wit)})
-    if real_fail:
+    harness_lim = [r for r in real_fail if (r.get('description') or '').startswith('HARNESS')]
+    if harness_lim:
+        job.status, job.detail = 'inconclusive', 'harness limit: ' + harness_lim[0]['description']
+    elif real_fail:
         job.status = 'cex'
         job.failed = [{'property': r['property'], 'description': r.get('description', ''),
                        'loc': '%s:%s' % (r.get('sourceLocation', {}).get('file', '?'), r.get('sourceLocation', {}).get('line', '?')),
@@ -451,7 +458,11 @@ def native_replay(job, prop, inputs, outdir):
         return False, 'assumption violated in replay (encoding mismatch)'
     if rc == 0:
         return False, 'did not reproduce natively'
-    return True, 'reproduced natively: exit=%s %s' % (rc, (so + se).strip().splitlines()[-1][:200] if (so + se).strip() else '')
+    out = so + se
+    last = out.strip().splitlines()[-1][:200] if out.strip() else ''
+    if 'REPLAY-FAIL' in se or 'AddressSanitizer' in se or 'runtime error:' in se or 'LeakSanitizer' in se or rc < 0 or rc in (134, 136, 139):
+        return True, 'reproduced natively: exit=%s %s' % (rc, last)
+    return False, 'replay run failed for another reason (exit=%s %s)' % (rc, last)
 
 
 def load_known(pid):
